@@ -24,6 +24,18 @@ def strategy(tier):
 def run_case(case):
     scn = case["scn"]
     with H.Sim(scn, schedule=case["schedule"]) as sim:
+        seen, stop = set(), []
+
+        def observer(rec):
+            # a job handed to sbatch a second time settles the case: stop the world (a runaway submitter would
+            # otherwise keep submitting until the step budget)
+            if rec["k"] == "sbatch":
+                if seen.intersection(rec["jobs"]):
+                    stop.append(rec["i"])
+                    sim.w.max_steps = min(sim.w.max_steps, sim.w.steps + 50)
+                seen.update(rec["jobs"])
+
+        sim.w.observers.append(observer)
         sim.submit()
         outcome = sim.drive()
         res = C.base_result(case, sim, outcome)
